@@ -168,6 +168,12 @@ class YAMLPath:
         ):
             self.original = path_now[
                 0:len(path_now) - len(removable_segment) + 1]
+        else:
+            # The popped segment was not written in its canonical form (it
+            # was demarcated, spaced, or used an alternate syntax), so it
+            # cannot be cut from the text; rebuild the remaining path.
+            self.original = YAMLPath._stringify_yamlpath_segments(
+                segments, self.separator)
 
         return popped_segment
 
